@@ -25,7 +25,7 @@ RULE = (
     "non-trivial = some cell overlaps >= 2 bins or lies on a bin edge"
 )
 SPACE = {
-    "quick": "kernel: n in {1,2,3}, all 5^(n+1) profiles on {0..4}, all 52 strictly monotonic bin sets (26 subsets x 2 directions), float64 and float32; API: 66 column pairs x 6 bin sets x {bounds, centres} x 2 layouts x chunkings of the extra dim x {ndarray, DataArray} target, in float64, in float32, and mixed (float32 data, float64 target_data and bins scaled by 0.7 so that edge values are not float32-representable)",
+    "quick": "kernel: n in {1,2,3}, all 5^(n+1) profiles on {0..4}, all 52 strictly monotonic bin sets (26 subsets x 2 directions), float64 and float32, and the same lattice squeezed next to a large offset (1000 + 0.001 v, -5 + 1e-6 v); API: 66 column pairs x 6 bin sets x {bounds, centres} x 2 layouts x chunkings of the extra dim x {ndarray, DataArray} target, in float64, in float32, and mixed (float32 data, float64 target_data and bins scaled by 0.7 so that edge values are not float32-representable)",
     "thorough": "kernel n = 4 as well (3125 profiles), lattice {0..5} for n <= 2",
 }
 BOUNDS = {"quick": {"n": [1, 2, 3]}, "thorough": {"n": [1, 2, 3, 4]}}
@@ -64,15 +64,25 @@ def judge(got, W, amb, n, m, tol=1e-12):
     return None
 
 
-def kernel_case(rec, n, bins, dtype, seed, only=None):
+AFFINE = ((1.0, 0.0), (0.001, 1000.0), (1e-6, -5.0))  # target_data = offset + scale * lattice value
+
+
+def kernel_case(rec, n, bins, dtype, seed, only=None, aff=0):
+    """aff > 0: the lattice is squeezed next to a large offset (weak stratification on a large
+    background value): neighbouring values differ only in the 6th-9th significant digit"""
     from xgcm.transform import interp_1d_conservative
 
+    scale, offset = AFFINE[aff]
+    lat_bins = bins
+    bins = [offset + scale * b for b in bins] if aff else bins
     profiles = list(itertools.product(LAT, repeat=n + 1))
     if only is not None:
         profiles = [tuple(only)]
     P = len(profiles)
     phi = np.vstack([np.eye(n), (np.arange(n) * 2.0 + 1 + seed % 3)[None, :]]).astype(dtype)
     theta = np.array(profiles, dtype=dtype)[:, None, :]  # (P,1,n+1)
+    if aff:
+        theta = offset + scale * theta
     phi_b = np.broadcast_to(phi[None], (P,) + phi.shape)
     theta_b = np.broadcast_to(theta, (P, phi.shape[0], n + 1))
     m = len(bins) - 1
@@ -80,15 +90,18 @@ def kernel_case(rec, n, bins, dtype, seed, only=None):
         out = interp_1d_conservative(phi_b, theta_b, np.array(bins, dtype=dtype))
     except Exception as e:
         rec.case(("k", n, tuple(bins), str(dtype)), True, calls=1)
-        rec.violation("kernel", "raise:" + exc_sig(e), dict(level="kernel", n=n, bins=bins, dtype=str(np.dtype(dtype)), profile=list(profiles[0])),
+        rec.violation("kernel", "raise:" + exc_sig(e), dict(level="kernel", n=n, bins=lat_bins, dtype=str(np.dtype(dtype)), profile=list(profiles[0]), aff=aff),
                       "array", f"{type(e).__name__}: {e}"[:200])
         return
-    tol = 1e-12 if dtype == np.float64 else 1e-6
+    tol0 = 1e-12 if dtype == np.float64 else 1e-6
+    bins = lat_bins
     for p, th in enumerate(profiles):
-        case = dict(level="kernel", n=n, bins=bins, dtype=str(np.dtype(dtype)), profile=list(th))
-        W, amb = R.overlap_weights(list(th), bins)
+        case = dict(level="kernel", n=n, bins=lat_bins, dtype=str(np.dtype(dtype)), profile=list(th), aff=aff)
+        # the weights are those of the lattice problem (an affine map of target_data and bins changes no overlap fraction)
+        W, amb = R.overlap_weights(list(th), lat_bins)
+        tol = tol0 if not aff else 1e-6
         nontriv = any(sum(1 for j in range(m) if W[j][i] > 0) >= 2 for i in range(n)) or any(t in bins for t in th)
-        rec.case(("k", n, tuple(bins), th, str(dtype)), nontriv, sample=case if p == 7 else None, calls=1 if p == 0 else 0)
+        rec.case(("k", n, tuple(bins), th, str(dtype), aff), nontriv, sample=case if p == 7 else None, calls=1 if p == 0 else 0)
         if out.shape != (P, n + 1, m):
             rec.violation("kernel", "shape", case, [P, n + 1, m], list(out.shape))
             return
@@ -121,6 +134,9 @@ API_PROFILES = [
 API_BINS = [[0, 1, 2, 3, 4], [4, 3, 2, 1, 0], [0, 2, 4], [4, 2, 0], [0, 1.5, 4], [-1, 0.5, 2.5, 5]]
 
 
+_API_GRID = {}
+
+
 def api_case(rec, pa, pb, bi, where, layout, chunk, tkind, seed, only=False, prec="f8"):
     """prec: 'f8' all float64 on the integer lattice; 'f4' all float32; 'mixed' float32 data with
     float64 target_data and bins scaled by 0.7 (values on bin edges that float32 cannot represent, some rounding inward)"""
@@ -129,10 +145,14 @@ def api_case(rec, pa, pb, bi, where, layout, chunk, tkind, seed, only=False, pre
     nz = 3
     case = dict(level="api", pa=pa, pb=pb, bi=bi, where=where, layout=layout, chunk=chunk, tkind=tkind, prec=prec)
     scale = 0.7 if prec == "mixed" else 1.0
-    ds = xr.Dataset(coords={"zc": ("zc", np.arange(nz) + 0.5), "zo": ("zo", np.arange(nz + 1.0)), "x": ("x", [0, 1])})
-    with warnings.catch_warnings():
-        warnings.simplefilter("ignore")
-        g = Grid(ds, coords={"Z": {"center": "zc", "outer": "zo"}}, periodic=False, autoparse_metadata=False)
+    g = _API_GRID.get("g")
+    if g is None:
+        # one Grid object serves every API case of a shard: whatever an earlier transform left on it
+        # must not influence a later one
+        ds = xr.Dataset(coords={"zc": ("zc", np.arange(nz) + 0.5), "zo": ("zo", np.arange(nz + 1.0)), "x": ("x", [0, 1])})
+        with warnings.catch_warnings():
+            warnings.simplefilter("ignore")
+            g = _API_GRID["g"] = Grid(ds, coords={"Z": {"center": "zc", "outer": "zo"}}, periodic=False, autoparse_metadata=False)
     bins = [float(np.float64(b) * scale) for b in API_BINS[bi]]
     profs = [tuple(float(np.float64(v) * scale) for v in API_PROFILES[pa]), tuple(float(np.float64(v) * scale) for v in API_PROFILES[pb])]
     phi = np.array([[1.0, 2.0, 4.0], [3.0 + seed % 2, -1.0, 5.0]])
@@ -248,8 +268,11 @@ def run_shard(shard, tier, seed, rec):
             kernel_case(rec, n, bs[bi], np.float64, seed)
             if bi % 4 == 0:
                 kernel_case(rec, n, bs[bi], np.float32, seed)
+            if bi % 2 == 0:
+                kernel_case(rec, n, bs[bi], np.float64, seed, aff=1 + (bi // 2) % 2)
     else:
         ac = api_cases(tier)
+        _API_GRID.clear()
         for c in ac[shard[1]: shard[2]]:
             api_case(rec, *c[:7], seed, prec=c[7])
 
@@ -260,7 +283,8 @@ def replay_case(case, seed, rec):
         # the profiles are stacked as columns of one call (that is part of the case: column
         # independence), so the whole batch is re-run and the one profile picked out
         rec.MAXVIOL = 10 ** 6
-        kernel_case(rec, case["n"], case["bins"], dt, seed)
+        kernel_case(rec, case["n"], case["bins"], dt, seed, aff=case.get("aff", 0))
         rec.viol = [v for v in rec.viol if v["case"].get("profile") == case["profile"]]
     else:
+        _API_GRID.clear()
         api_case(rec, case["pa"], case["pb"], case["bi"], case["where"], case["layout"], case["chunk"], case["tkind"], seed, prec=case.get("prec", "f8"))
